@@ -866,14 +866,14 @@ func TestVerif_C04(t *testing.T) {
 	}
 
 	t0 := time.Now()
-	nseq := r.N(60, 900)
+	nseq := r.N(60, 700)
 	for i := 0; i < nseq && r.Violations() == 0; i++ {
 		e.runSequential(e.newCase(), 40+rng.Intn(40))
 		r.Count("sequential_histories", 1)
 	}
 	r.Note("wall_s_sequential_phase", time.Since(t0).Seconds())
 	t1 := time.Now()
-	nconc := r.N(200, 3000)
+	nconc := r.N(200, 2400)
 	for i := 0; i < nconc && r.Violations() < 3; i++ {
 		e.runConcurrent(e.newCase(), i)
 	}
